@@ -21,6 +21,15 @@ CLAIMED = {
    technique="deterministic simulation: virtual clock + seeded fibre scheduler + loss/abandon injection, lifecycle/race monitors and count/timing oracles", section="DESIGN.md §4 C06"),
 }
 
+CLAIMED["C04"] = dict(
+   text="Two parts, reported separately in the evidence. (1) Generated push programs through the cfg-gated wrappers (all 11 command kinds, lengths around the remaining capacity, overrides below/equal/above, fill-the-rest pushes of 0..2*capacity) into frames of every menu size 28..1514, built in slots dirtied by a previous life (abandoned build, abandoned in flight, full response of ones): accept/refuse decisions, (consumed, handle) reports and every transmitted byte are compared with an independent encoder. (2) The wire monitor applies the per-frame well-formedness clauses to every frame transmitted in the scenarios of the other checks.",
+   note="The independent encoder/decoder in sim/src/wire.rs and c_seq.rs is the trusted base; frame sizes above 1514 are not generated.",
+   technique="deterministic simulation: seeded operation histories on the real PDU loop (slot reuse after responses/abandonment) + independent encoder as reference model", section="DESIGN.md §4 C04")
+CLAIMED["C05"] = dict(
+   text="1..4 slots are driven (sequentially, with the TX side held inside its send closure where needed) into drawn combinations of all nine reachable states; 8..32 frames per configuration from 16 generator classes (random, structure-aware mutants of real responses: every truncation, every header field, padded, oversized, echoes, bit flips) are fed to receive_frame under catch_unwind with a byte-exact snapshot of every slot before and after: reject/ignore => nothing changed anywhere; accept => exactly one slot, it was Sent with that first index, now RxDone holding exactly the payload.",
+   note="Snapshots are taken through the read-only cfg-gated inspector; at most one slot is in Sending per configuration.",
+   technique="deterministic simulation: seeded slot-state histories + hostile frame injection with whole-storage snapshot oracle", section="DESIGN.md §4 C05")
+
 NA = {
  "C19": "pure function of its input (a proc-macro and the code it generates): no schedule, clock, fault, I/O or second party for a simulator to control; input generation alone is not simulation (DESIGN.md §4 C19)",
 }
